@@ -276,6 +276,9 @@ func (c *ctx) c08History(label string, n, t int, mat0 []interface{}, ops []strin
 }
 
 func runC08(c *ctx) {
+	if c.replay != "" && c.c08RetReplayRun() {
+		return
+	}
 	if c.replay != "" {
 		var rp c08MixReplay
 		if err := readJSON(c.replay, &rp); err == nil && rp.Protocol != "" {
@@ -292,7 +295,9 @@ func runC08(c *ctx) {
 		"after the first and second refresh (thorough: every refresh) mixed-epoch signing sessions on every signing entry point (cmp sign / presign / presign-online, frost sign, taproot sign, doerner sign): " +
 		"signer sets minimal prefix / minimal non-prefix / non-contiguous / everybody, one signer stale (each position) or all but one stale, material 1 and 2 refreshes old restored from bytes " +
 		"(quick tier: the 3-signer CMP sets are sampled); non-trivial = history contains a refresh / a mixed session whose stale material differs from the current one; " +
-		"distinct by (material, n, t, history, seed) resp. (entry point, n, t, signers, which signer, what is stale, epoch)"
+		"distinct by (material, n, t, history, seed) resp. (entry point, n, t, signers, which signer, what is stale, epoch); " +
+		"refresh given the in-memory objects the application keeps (c08_retained.go): old object unchanged vs its serialisation, signing with the current objects while the refresh is suspended " +
+		"at every round boundary / with one party a round ahead, refresh stopped after every round"
 	opsPool := []string{"refresh", "restore", "derive", "sign", "refresh"}
 	genOps := func(maxLen int, withDerive bool) []string {
 		n := 2 + r.Intn(maxLen-1)
@@ -364,6 +369,8 @@ func runC08(c *ctx) {
 		if len(probs) > 0 {
 			c.res.Violate("property", "C08/cmp/keygen-incomplete", strings.Join(probs, "; "), nil)
 		} else {
+			// refresh sessions given the in-memory objects the application keeps (c08_retained.go); CMP on private objects restored from `raw`
+			c.c08RetainedAll(raw, ids)
 			ops := []string{"refresh", "sign", "refresh"}
 			if c.thorough() {
 				ops = []string{"refresh", "restore", "derive", "refresh", "sign"}
